@@ -74,6 +74,7 @@ fn main() {
         "c19-tester" => derive::tester(),
         "c06" => format::c06_cases(&mut rng, &tier, &mut out),
         "c16" => cli::c16_cases(&mut rng, &tier, &mut out),
+        "c16-symlink" => cli::c16_symlink_cases(&mut rng, &tier, &mut out),
         "c02" => repair::c02_cases(&mut rng, &tier, &mut out),
         "c02-comp" => fscomp::c02_comp_cases(&mut rng, &tier, &arg(&args, "--aspect").unwrap_or_default(), &mut out),
         "c05" => repair::c05_cases(&mut rng, &tier, &mut out),
